@@ -48,6 +48,10 @@ ALPHA = ['-Ia', '-Ib', '-La', '-Dx', '-Ux', '-isystemq', '-lfoo', 'libz.a', '-Wa
 # an absolute path to a library: only ever given to append_direct/extend_direct, whose contract is "no reordering or
 # de-dup except for absolute paths, which can always be de-duped safely" = the ordinary append for that one element
 ABS = '/q/libq.a'
+# an option whose operand is the NEXT argument ("-isystem /a", "-D FOO"): the bare option is defined by what follows it, so it is
+# never de-duplicated or moved (its operand neither): plain arguments, given as two-element batches
+BARE = [('-isystem', '/a'), ('-isystem', '/b'), ('-D', 'FOO'), ('-D', 'BAR')]
+BARE_ATOMS = ['-isystem', '/a', '/b', '-D', 'FOO', 'BAR']
 KINDS = {
     'clike': {'-Ia': FRONT_OVR, '-Ib': FRONT_OVR, '-La': FRONT_OVR, '-Dx': BACK_OVR, '-Ux': BACK_OVR,
               '-isystemq': BACK_OVR, '-lfoo': ONCE, 'libz.a': ONCE, '-Wall': PLAIN},
@@ -56,9 +60,11 @@ KINDS = {
 }
 for _k in KINDS.values():
     _k[ABS] = ONCE
+    for _a in BARE_ATOMS:
+        _k[_a] = PLAIN
 # settings that contradict each other: the later-added one must take effect (come last)
 SAME_SETTING = [('-Dx', '-Ux')]
-ENC = {a: chr(97 + i) for i, a in enumerate(ALPHA + [ABS])}
+ENC = {a: chr(97 + i) for i, a in enumerate(ALPHA + [ABS] + BARE_ATOMS)}
 DEC = {v: k for k, v in ENC.items()}
 
 
@@ -80,6 +86,9 @@ def build_ops(alpha):
     for a in alpha:
         for b in alpha:
             ops.append(('iadd', (a, b)))
+    for pair in BARE:
+        ops.append(('iadd', pair))
+        ops.append(('extend', pair))
     # direct insertion of an absolute path, alone and inside a batch on either side of every other argument
     ops.append(('append_direct', (ABS,)))
     ops.append(('extend_direct', (ABS, ABS)))
